@@ -21,19 +21,28 @@ META = {
              "writer's array/map headers always start with a collection marker; hence xt's JSON / YAML / MessagePack / TOML output "
              "is detected as what it is whenever the format's own trial accepts its writer's output (explicit premises; for TOML "
              "also the property's exclusions). For MessagePack that premise is proved too: the modelled trial accepts the modelled "
-             "writer's output for EVERY array- or map-rooted encodable value within the depth limit, whatever follows it. The order and error plumbing are diffed against the real detect_format: the four "
-             "trials are put to the third-party crates directly, the model predicts the answer, the hook reports xt's. The oracle "
+             "writer's output for EVERY array- or map-rooted encodable value within the depth limit, whatever follows it. For JSON it is "
+             "proved as well: the JSON trial is modelled (JsonTrialModel.v: serde_json's ignore_value as IgnoredAny drives it - no "
+             "recursion limit, no range or escape checks, no UTF-8 check from a reader; diffed against the real trial on every run), "
+             "it is proved to accept whatever the real parse accepts (C10_json_trial_accepts_what_parses), and with the read-back "
+             "theorems of the JSON writer model (floats included) the stream xt writes for one or more values, the first a map or an "
+             "array, is detected as JSON whatever the YAML trial would say (C10_own_json_output_detected, no premise). The order and "
+             "error plumbing are diffed against the real detect_format: the MessagePack and JSON trials come from the models, the YAML "
+             "and TOML trials are put to the third-party crates directly, the model predicts the answer, the hook reports xt's. The oracle "
              "feeds xt's output for collection-rooted documents (empty collections; first keys empty, numeric-looking, quoted, "
              "non-ASCII, starting with bytes 0x80-0xDF) back with no format named: detected format and output must equal the "
              "explicit run, one or many documents, slice and reader with random cuts.",
-    "level_note": "Trusted: Coq kernel; hand-written models validated by correspondence. That each format's trial accepts what its own "
-                  "writer emitted is third-party behaviour, stated as premises of the theorems and exercised by the oracle. No axioms.",
+    "level_note": "Trusted: Coq kernel; hand-written models validated by correspondence. That the YAML and TOML trials accept what their own "
+                  "writers emitted is third-party behaviour, stated as premises of the theorems and exercised by the oracle (discharged for "
+                  "MessagePack and JSON on the codec models). No axioms.",
     "trusted_base": [
         "Coq 8.16.1 kernel (coqc, full .vo build); no axioms",
         "hand-written Gallina models DetectModel.v (detect.rs order, TOML trial shell), MsgpackModel.v (msgpack trial, writer headers), "
         "tied to the code by the detection-order correspondence (harness op `trials` + hook xt::verif::detect_slice/detect_reader)",
         "third-party trials (serde_json, libyaml chunker + serde_yaml, toml): acceptance of own output observed by the oracle",
         "extraction (ExtrOcamlBasic only), model_driver/driver.ml, harness/src/session.rs, tools/*.py",
+        "hand-written Gallina model JsonTrialModel.v of serde_json 1.0.138's ignore_value (the scanner behind IgnoredAny, which is what xt's JSON "
+        "detection trial runs), as a recursive descent equivalent to serde_json's loop with an explicit bracket stack; tied to the real trial by the JI correspondence",
     ],
     "assumptions": [],
     "explanation": "xt's detection order and first-byte logic are proved; the third-party trials' acceptance of their own writers' "
@@ -54,8 +63,11 @@ def run_order_correspondence(outcome, tier, seed):
             outcome.oracle_failures.append({"what": "panic/crash running the trials", "input_hex": shared.hx(d)})
             continue
         idx.append(i)
-        lines.append("DT %ds %s %d %d %d" % (i, shared.hx(d), r["json"], r["yaml"], r["toml"]))
-        lines.append("DT %dr %s %d %d %d" % (i, shared.hx(d), r["json_reader"], r.get("yaml_reader", r["yaml"]), r["toml"]))
+        # the MessagePack and the JSON trial come from the model (MsgpackModel.v, JsonTrialModel.v); the YAML and TOML trials'
+        # verdicts are put to the crates
+        lines.append("DT %ds %s s %d %d" % (i, shared.hx(d), r["yaml"], r["toml"]))
+        lines.append("DT %dr %s r %d %d" % (i, shared.hx(d), r.get("yaml_reader", r["yaml"]), r["toml"]))
+        lines.append("JI %dj %s" % (i, shared.hx(d)))
     model = common.run_driver_lines(lines)
     hist = {}
     for i in idx:
@@ -68,9 +80,20 @@ def run_order_correspondence(outcome, tier, seed):
                 outcome.disagreements.append({"what": "detect_format (%s) differs from the model's first-accepting-trial order" % which,
                                               "input_hex": shared.hx(inputs[i]), "trials": {k: r.get(k) for k in ("json", "json_reader", "yaml", "yaml_reader", "toml")},
                                               "implementation": got, "model": m})
+    # the JSON trial itself (JsonTrialModel.v: serde_json's ignore_value) against the real one, slice and reader
+    jhist = {}
+    for i in idx:
+        r = resps[i]
+        ms, _, mr = model.get("%dj" % i, "? ?").partition(" ")
+        got = "%d %d" % (r["json"], r["json_reader"])
+        jhist[got] = jhist.get(got, 0) + 1
+        if got != "%s %s" % (ms, mr):
+            outcome.disagreements.append({"what": "the JSON detection trial (slice, reader) differs from the model of serde_json's ignore_value",
+                                          "input_hex": shared.hx(inputs[i]), "implementation": got, "model": "%s %s" % (ms, mr)})
     outcome.evaluations += len(reqs)
     outcome.traces_validated += len(idx)
-    outcome.extra["detection_order_correspondence"] = {"inputs": len(inputs), "detected_histogram": hist}
+    outcome.extra["detection_order_correspondence"] = {"inputs": len(inputs), "detected_histogram": hist,
+                                                       "json_trial_verdicts(slice reader)": jhist}
 
 
 def first_key_stress(rng):
